@@ -725,6 +725,7 @@ func TestEngineSequences(t *testing.T) {
 	g := genCase(genConfig{Mode: "engine", Params: tierParams(), Natives: tierNatives(), MaxOps: maxOps()})
 	rec.Check(t, "engine", ev.N(1500, 40000), func(rt *rapid.T) {
 		c := g.Draw(rt, "case")
+		rec.Begin("engine", c)
 		rec.Report(rt, "engine", c, run(c, rec))
 	})
 }
@@ -735,6 +736,7 @@ func TestCompiledSequences(t *testing.T) {
 	g := genCase(genConfig{Mode: "compiled", Params: tierParams(), Natives: tierNatives(), MaxOps: maxOps() / 2})
 	rec.Check(t, "compiled", ev.N(250, 4000), func(rt *rapid.T) {
 		c := g.Draw(rt, "case")
+		rec.Begin("compiled", c)
 		rec.Report(rt, "compiled", c, run(c, rec))
 	})
 }
@@ -745,6 +747,7 @@ func TestAdversarialHints(t *testing.T) {
 	g := genCase(genConfig{Mode: "adv", Params: tierParams(), Natives: tierNatives(), MaxOps: maxOps() / 3})
 	rec.Check(t, "adv", ev.N(300, 5000), func(rt *rapid.T) {
 		c := g.Draw(rt, "case")
+		rec.Begin("adv", c)
 		rec.Report(rt, "adv", c, run(c, rec))
 	})
 }
@@ -777,6 +780,7 @@ func TestKnownFindingProbe(t *testing.T) {
 		f11Probe("goldilocks", "bn254", "r1cs", false),
 		f11Probe("small3x11", "bls12-377", "scs", false),
 	} {
+		rec.Begin("f11probe", c)
 		rec.Report(t, "f11probe", c, run(c, rec))
 	}
 }
